@@ -27,7 +27,7 @@ ASSUMES = ["labelled barriers span all qubits (a partial labelled barrier has no
 HEADER = "From Coq Require Import List. Import ListNotations.\nFrom Yaqs Require Import Model.DigitalLoop."
 
 
-def gen_circuit(rng, n=None, m=None, gateset=("rx", "ry", "h", "cx", "rzz", "rxx"), allow_sbar=True):
+def gen_circuit(rng, n=None, m=None, gateset=("rx", "ry", "h", "cx", "rzz", "rxx"), allow_sbar=True, partial_sbar=False):
     """Returns (instruction list for the model, builder) where instrs = [(id, kind, qubits, name, param)]"""
     n = n or int(rng.integers(2, 6))
     m = m or int(rng.integers(1, 15))
@@ -48,7 +48,14 @@ def gen_circuit(rng, n=None, m=None, gateset=("rx", "ry", "h", "cx", "rzz", "rxx
             instrs.append((i, "Bar", qs, "barrier", str(rng.choice(["", "", "note", "sample"]))))
         else:
             lab = str(rng.choice(["SAMPLE_OBSERVABLES", "sample_observables", "Sample_Observables"]))
-            instrs.append((i, "SBar", list(range(n)), "barrier", lab))
+            qs = list(range(n))
+            if partial_sbar and rng.random() < 0.5:  # labelled barriers on a subset: several can stand side by side
+                k = int(rng.integers(1, n + 1))
+                qs = sorted(int(x) for x in rng.choice(n, size=k, replace=False))
+            instrs.append((i, "SBar", qs, "barrier", lab))
+            if partial_sbar and len(qs) < n and rng.random() < 0.5:
+                rest = [q for q in range(n) if q not in qs]
+                instrs.append((i + 100, "SBar", rest, "barrier", lab))
     return n, instrs
 
 
@@ -160,13 +167,16 @@ def correspond(ctx):
         (3, [(0, "G1", [0], "rx", 0.1), (1, "SBar", [0, 1, 2], "barrier", "SAMPLE_OBSERVABLES"), (2, "G2", [1, 2], "cx", 0.12)]),
         (2, [(0, "SBar", [0, 1], "barrier", "sample_observables"), (1, "SBar", [0, 1], "barrier", "SAMPLE_OBSERVABLES")]),
         (2, [(0, "Meas", [0], "measure", None), (1, "G2", [1, 0], "rzz", 0.11), (2, "Bar", [1], "barrier", "note")]),
+        (4, [(0, "G1", [0], "rx", 0.1), (1, "SBar", [0, 1], "barrier", "SAMPLE_OBSERVABLES"), (2, "SBar", [2, 3], "barrier", "SAMPLE_OBSERVABLES"),
+             (3, "G2", [1, 2], "cx", 0.1), (4, "SBar", [0], "barrier", "sample_observables")]),
     ]
     cases = []
     for k, (n, instrs) in enumerate(corpus):
         for mode in ("sampling", "plain", "weak"):
             cases.append((n, instrs, mode))
     for k in range(ctx.scale(150, 3000)):
-        n, instrs = gen_circuit(ctx.rng)
+        n, instrs = gen_circuit(ctx.rng, partial_sbar=(k % 2 == 0))
+        instrs = [(j, kd, q, nm, pr) for j, (_, kd, q, nm, pr) in enumerate(instrs)]
         cases.append((n, instrs, ("sampling", "plain", "weak")[k % 3]))
     exprs, impl = [], []
     for (n, instrs, mode) in cases:
